@@ -202,15 +202,38 @@ RandDocP(seed, withProps) ==
 RandDoc(seed) == RandDocP(seed, FALSE)
 
 (***************************************************************************)
+(* Comments (C14).  A declaration carries the comment it is DECLARED with  *)
+(* on the positions where the property promises capture; where the comment *)
+(* is written (above or trailing, // or block) is a matter of form.        *)
+(***************************************************************************)
+CommentTexts == <<"plain comment", "it's \"quoted\"", "{ braces } [x] (y)", "Table x {", "'); DROP TABLE t; --",
+                  "a * b / c", "note: 'x'", "~u00fc~ber ~u4e2d~", "two\nlines", "Ref: a.b > c.d\nEnum e {\n}", "// nested", "#1">>
+OneLineComments == SelectSeq(CommentTexts, LAMBDA t : t \notin {"two\nlines", "Ref: a.b > c.d\nEnum e {\n}"})
+MaybeC(seed, key, pool) == IF Coin(seed, key, 45) THEN Pick(seed, key + 1, pool) ELSE ""
+
+Commented(seed, doc) ==
+  [i \in DOMAIN doc |->
+    CASE doc[i].d = "table" ->
+           [doc[i] EXCEPT !.comment = MaybeC(seed, K(40 + i, 0, 1), CommentTexts),
+                          !.cols = [c \in DOMAIN @ |-> [@[c] EXCEPT !.comment = MaybeC(seed, K(40 + i, c, 3), OneLineComments)]],
+                          !.idxs = [x \in DOMAIN @ |-> [@[x] EXCEPT !.comment = MaybeC(seed, K(40 + i, 10 + x, 5), CommentTexts)]]]
+      [] doc[i].d = "enum" ->
+           [doc[i] EXCEPT !.comment = MaybeC(seed, K(40 + i, 0, 1), CommentTexts),
+                          !.items = [c \in DOMAIN @ |-> [@[c] EXCEPT !.comment = MaybeC(seed, K(40 + i, c, 3), CommentTexts)]]]
+      [] doc[i].d \in {"ref", "group", "project"} ->
+           [doc[i] EXCEPT !.comment = MaybeC(seed, K(40 + i, 0, 1), CommentTexts)]
+      [] OTHER -> doc[i]]
+
+(***************************************************************************)
 (* The generator state machine: one state per seed.  Documents that are    *)
 (* not well-formed (e.g. two random references that coincide) are counted  *)
 (* and not emitted.                                                        *)
 (***************************************************************************)
-CONSTANTS SeedLo, SeedHi, WithProps
+CONSTANTS SeedLo, SeedHi, WithProps, WithComments
 VARIABLE seed
 Init == seed \in SeedLo..SeedHi
 Next == UNCHANGED seed
-TheDoc == RandDocP(seed, WithProps)
+TheDoc == IF WithComments THEN Commented(seed, RandDocP(seed, WithProps)) ELSE RandDocP(seed, WithProps)
 
 \* design level: the operational parser model satisfies the declarative properties on every
 \* well-formed document
